@@ -220,11 +220,23 @@ namespace vh
     //   -> "res=<result> err=<error-level codes> type=<type of gr> dmem=<growth of the resident set in MB>"
     inline std::string verb_op(const std::vector<std::string>& f)
     {
+        std::string op_scratch;
+        struct cleanup { std::string& d; ~cleanup() { if (!d.empty()) { std::error_code ec; std::filesystem::remove_all(d, ec); } } } cl{ op_scratch };
         std::string text = f.size() > 0 ? f[0] : std::string();
         std::string setup = f.size() > 1 ? f[1] : std::string();
         struct rusage r0; getrusage(RUSAGE_SELF, &r0);
         auto v = make_vm(regmode::real, 2000);
         sqf::runtime::fileio::pathinfo pi(std::string("op.sqf"), std::string());
+        {   // small files for the operators that read files: empty, one byte, two bytes of a BOM, a BOM alone, a BOM and text
+            namespace fs = std::filesystem;
+            fs::path dir = fs::path("/var/tmp/sqfvm-verif/op-scratch") / std::to_string((long)getpid());
+            fs::create_directories(dir);
+            const char* names[] = { "e0.txt", "e1.txt", "e2.txt", "e3.txt", "e4.sqf", "e5.cpp" };
+            const std::string contents[] = { "", "a", "\xEF\xBB", "\xEF\xBB\xBF", "\xEF\xBB\xBF" "1 + 1", "class A { x = 1; };" };
+            for (int i = 0; i < 6; i++) { std::ofstream o(dir / names[i], std::ios::binary); o.write(contents[i].data(), (std::streamsize)contents[i].size()); }
+            v.rt->fileio().add_mapping(dir.string(), "/");
+            op_scratch = dir.string();
+        }
         if (!setup.empty())
         {
             auto s0 = v.rt->parser_sqf().parse(*v.rt, setup, pi);
